@@ -315,8 +315,8 @@ def run_unit(unit, rec):
 					c += 1
 					run_case("grid", {"n": n, "batch_size": b, "n_args": k,
 						"kind": kind, "xdtype": ("int8", "float32",
-						"float64")[c % 3], "with_param": c % 5 != 0,
-						"args_tuple": c % 2 == 0}, rec)
+						"float64")[(c // 5) % 3], "with_param": (c // 15) % 4
+						!= 3, "args_tuple": (c // 5) % 2 == 0}, rec)
 		rec.mark_exhaustive("grid")
 	elif unit["cls"] == "oom":
 		c = 0
